@@ -531,11 +531,10 @@ class FLAE:
             lam = L[(np.abs(L-1.0)).argmin()].real          # Eigenvalue closest to 1
         N = W - lam*np.identity(4)                          # (eq. 54)
         try:
-            # Return identity quaternion if N is singular matrix
-            _ = np.linalg.inv(N)
+            # Solve for N and get fundamental solution
+            r = np.linalg.solve(N[1:, :-1], N[1:, -1])      # (eq. 55)
         except np.linalg.LinAlgError:
+            # Return identity quaternion if the fundamental solution cannot be found
             return np.array([1., 0., 0., 0.])
-        # Solve for N and get fundamental solution
-        r = np.linalg.solve(N[1:, :-1], N[1:, -1])          # (eq. 55)
         q = np.array([*r, -1])                              # (eq. 58)
         return q / np.linalg.norm(q)
